@@ -35,8 +35,10 @@ CLAIMS = {
         technique="Lean 4 simulation proof between two interpreters + two real builds in lock-step",
         design="7 C02"),
     'C03': dict(
-        text="Proof against an abstract receive environment; the tie of that environment to the chip model is by the correspondence "
-             "scripts only (no refinement theorem yet, unlike C04). The environment rxE (Sx/Lemmas/RxFifo.lean) is a 64-byte FIFO into which "
+        text="Proof against an abstract receive environment, which is proved to cover the uncached chip-model interpreter for operations "
+             "without events inside them (rx_covers, env_rxByte, env_rxEnd, C03_step_on_chip: flag semantics, FIFO reads including the clearing of "
+             "PayloadReady, flush, configuration registers; the cached build by C02); arrivals INSIDE a running handler are covered by the "
+             "environment but tied to the chip model by the scripts only. The environment rxE (Sx/Lemmas/RxFifo.lean) is a 64-byte FIFO into which "
              "the demodulator may push any number of the frame's next bytes before EVERY SPI transfer (hence also between the transfers of a "
              "running handler) as long as the FIFO does not fill up (the property's hypothesis), PayloadReady raised at any moment after the "
              "last byte - also inside a running handler - with CrcOk per CRC outcome, flag bits consistent with the FIFO at the moment of the "
